@@ -69,7 +69,6 @@ def run_hist(case):
 
 def _run_hist(case):
     import yaml
-    fmt = case["fmt"]
     regs = [mkpipe(d) for d in case["defs"]]
     # the resolver table: identifier -> registered object | callable; YAML files are found by path
     table = {}
@@ -90,13 +89,14 @@ def _run_hist(case):
         else:
             raise ValueError(ent)
     resolver = ProcessingPipelineResolver(table)
-    bk, outf = mkpipe(case["bk"]), mkpipe(case["of"])
+    bk = mkpipe(case["bk"])
+    outf = {f: mkpipe(case["of"][f]) for f in ("default", "test", "state")}     # class-level objects, one per format
 
     class VBackend(TextQueryTestBackend):
         convert_or_as_in = False
         convert_and_as_in = False
         backend_processing_pipeline = bk
-        output_format_processing_pipeline = defaultdict(ProcessingPipeline, {fmt: outf})
+        output_format_processing_pipeline = defaultdict(ProcessingPipeline, outf)
 
     def rules():
         return SigmaCollection([
@@ -110,7 +110,7 @@ def _run_hist(case):
             return regs[t]
         return ev(t[0]) + ev(t[1])
 
-    backs = {}
+    backs = {False: VBackend(), True: VBackend()}      # two backend objects of one class, alive for the whole history
     res = None
     for op in case["prog"]:
         if op[0] == "tree":
@@ -120,13 +120,12 @@ def _run_hist(case):
         elif op[0] == "sum":
             regs.append(sum([regs[i] for i in op[1]]))
         elif op[0] == "init":
-            b = VBackend(None if op[2] is None else regs[op[2]])
-            b.init_processing_pipeline(fmt)
-            backs[op[1]] = b
-        elif op[0] in ("run", "convert"):
-            if op[0] == "convert":
-                backs[op[1]] = VBackend(None if op[2] is None else regs[op[2]])
             b = backs[op[1]]
+            b.processing_pipeline = None if op[2] is None else regs[op[2]]
+            b.init_processing_pipeline(op[3])
+        elif op[0] in ("run", "convert"):
+            b = backs[op[1]]
+            fmt = op[3] if op[0] == "convert" else op[2]
             obs = []
 
             def cb(rule, output_format, index, cond, result, b=b, obs=obs):
@@ -135,6 +134,7 @@ def _run_hist(case):
                     obs.append([list(lp.applied), [[k, v] for k, v in lp.state.items()]])
                 return result
             if op[0] == "convert":
+                b.processing_pipeline = None if op[2] is None else regs[op[2]]
                 out = b.convert(rules(), fmt, callback=cb)
             else:
                 qs = [q for r in rules().rules for q in b.convert_rule(r, fmt, cb)]
